@@ -91,6 +91,51 @@ def divisor_exprs(fn, pidx, kind):
                                 derived.add(d["var"]["id"])
                                 changed = True
                 sa.walk(el["e"], g)
+    # variables that only ever hold |size of the divisor| (dsize = ABSIZ (d)): `dsize < 1` tests them for zero
+    def strip(e):
+        while isinstance(e, dict) and e.get("k") in ("cast", "paren"):
+            e = e["e"]
+        return e
+
+    def is_abs(e):
+        e = strip(e)
+        if not (isinstance(e, dict) and e.get("k") == "cond"):
+            return False
+        c = strip(sa.strip_expect(e["c"]))
+        if not (isinstance(c, dict) and c.get("k") == "binop" and c["op"] in (">=", ">", "<", "<=") and strip(c["r"]).get("k") == "int"
+                and strip(c["r"])["v"] == 0 and from_div(c["l"])):
+            return False
+        x = json.dumps(strip(c["l"]), sort_keys=True)
+        pos, negv = (e["a"], e["b"]) if c["op"] in (">=", ">") else (e["b"], e["a"])
+        negv = strip(negv)
+        return json.dumps(strip(pos), sort_keys=True) == x and isinstance(negv, dict) and negv.get("k") == "unop" and negv["op"] == "-" \
+            and json.dumps(strip(negv["e"]), sort_keys=True) == x
+    assigned = collections.defaultdict(list)
+    for b in fn["blocks"]:
+        for el in b["elems"]:
+            def h(n):
+                if n.get("k") == "binop" and n["op"].endswith("=") and n["op"] not in ("==", "!=", "<=", ">=") and strip(n["l"]).get("k") == "var":
+                    assigned[strip(n["l"])["id"]].append(n["r"] if n["op"] == "=" else None)
+                if n.get("k") == "unop" and n["op"] in ("post++", "pre++", "post--", "pre--") and strip(n["e"]).get("k") == "var":
+                    assigned[strip(n["e"])["id"]].append(None)
+                if n.get("k") == "decl":
+                    for d in n["decls"]:
+                        if "init" in d:
+                            assigned[d["var"]["id"]].append(d["init"])
+            sa.walk(el["e"], h)
+    absvars = {v for v, rs in assigned.items() if v in derived and rs and all(r is not None and is_abs(r) for r in rs)}
+
+    def nonneg(e):
+        """e is known to be >= 0 and zero exactly when the divisor is zero"""
+        e = strip(e)
+        if not isinstance(e, dict):
+            return False
+        if e.get("k") == "var" and e["id"] in absvars:
+            return True
+        if e.get("k") == "var" and kind == "ui" and e["id"] == pid and "unsigned" in (fn["params"][pidx].get("ct", "") + fn["params"][pidx].get("t", "")):
+            return True
+        return is_abs(e)
+    from_div.nonneg = nonneg
     return pid, derived, from_div
 
 
@@ -101,12 +146,33 @@ def zero_edge(cond, from_div):
     while isinstance(c, dict) and c.get("k") == "unop" and c["op"] == "!":
         c = sa.strip_expect(c["e"])
         neg = not neg
+    # (x < 1) != 0  (what UNLIKELY leaves behind): the comparison itself
+    while isinstance(c, dict) and c.get("k") == "binop" and c["op"] in ("==", "!=") and isinstance(c["r"], dict) and c["r"].get("k") == "int" \
+            and c["r"]["v"] == 0 and isinstance(c["l"], dict) and c["l"].get("k") == "binop" and c["l"]["op"] in ("<", "<=", ">", ">=", "==", "!="):
+        if c["op"] == "==":
+            neg = not neg
+        c = c["l"]
     if not isinstance(c, dict):
         return None
     if c.get("k") == "binop" and c["op"] in ("==", "!=") :
         for a, b in ((c["l"], c["r"]), (c["r"], c["l"])):
             if isinstance(b, dict) and b.get("k") == "int" and b["v"] == 0 and from_div(a) and a.get("k") in ("var", "member", "cast"):
                 zero_when_true = (c["op"] == "==") != neg
+                return 0 if zero_when_true else 1
+        return None
+    nonneg = getattr(from_div, "nonneg", None)
+    if nonneg and c.get("k") == "binop" and c["op"] in ("<", "<=", ">", ">="):
+        # |size| < 1, |size| <= 0, 1 > |size| ...: a zero test of a quantity that cannot be negative
+        l, r, op = c["l"], c["r"], c["op"]
+        if isinstance(l, dict) and l.get("k") in ("int",) or (isinstance(l, dict) and l.get("k") == "cast" and l["e"].get("k") == "int"):
+            l, r, op = r, l, {"<": ">", "<=": ">=", ">": "<", ">=": "<="}[op]
+        rr = r
+        while isinstance(rr, dict) and rr.get("k") in ("cast", "paren"):
+            rr = rr["e"]
+        if isinstance(rr, dict) and rr.get("k") == "int" and nonneg(l):
+            zero_when_true = {("<", 1): True, ("<=", 0): True, (">=", 1): False, (">", 0): False}.get((op, rr["v"]))
+            if zero_when_true is not None:
+                zero_when_true = zero_when_true != neg
                 return 0 if zero_when_true else 1
         return None
     if c.get("k") in ("var", "member") and from_div(c):
@@ -221,7 +287,8 @@ def run(prop="C02", tier="quick"):
     family = {}
     for cols in spec_tsv("division_api.tsv", 4):
         family[cols[0]] = (int(cols[1]), cols[2])
-    fix = {"fix_div_noguard": (2, "ui"), "fix_div_late_guard": (2, "ui"), "fix_div_good": (2, "ui"), "fix_div_deleg": (2, "mpz")}
+    fix = {"fix_div_noguard": (2, "ui"), "fix_div_late_guard": (2, "ui"), "fix_div_good": (2, "ui"), "fix_div_deleg": (2, "mpz"),
+           "fix_div_abs_lt1": (2, "mpz"), "fix_div_signed_lt1": (2, "mpz")}
     byname = {}
     for path, fn in ex.functions():
         if fn["name"] in family or fn["name"] in fix:
@@ -240,7 +307,8 @@ def run(prop="C02", tier="quick"):
     fx = [f for f in res["findings"] if f.file == FIXTURE]
     res["findings"] = [f for f in res["findings"] if f.file != FIXTURE]
     res["samples"] = [s for s in res["samples"] if not s["function"].startswith("fix_")]
-    exp = {"fix_div_noguard": "no-guard", "fix_div_late_guard": "unguarded", "fix_div_good": None, "fix_div_deleg": None}
+    exp = {"fix_div_noguard": "no-guard", "fix_div_late_guard": "unguarded", "fix_div_good": None, "fix_div_deleg": None,
+           "fix_div_abs_lt1": None, "fix_div_signed_lt1": "no-guard"}
     for fname, sig in exp.items():
         got = [f.signature for f in fx if f.function == fname]
         if sig is None and got:
@@ -250,6 +318,6 @@ def run(prop="C02", tier="quick"):
     res["stats"]["entry_points"] -= len(fix)
     res["stats"] = dict(res["stats"])
     res["obligations"] = res["stats"]["entry_points"] + res["stats"].get("dangerous_ops", 0)
-    res["notes"].append("fixtures: 2 positive fired, 2 negative silent")
+    res["notes"].append("fixtures: 3 positive fired, 3 negative silent")
     res["exhaustive"] = True
     return res
